@@ -250,6 +250,56 @@ func execute(x *explore.X, req request, nExt int) outcome {
 			return out
 		}
 	}
+	// fault isolation: extensions that did not panic themselves observe the same pipeline
+	faulty := map[string]bool{}
+	abortingStart := false
+	for _, pn := range out.panics {
+		f := strings.Fields(pn)
+		dot := strings.IndexByte(f[0], '.')
+		faulty[f[0][:dot]] = true
+		switch f[0][dot+1:] {
+		case "HasResult", "GetResult":
+		default:
+			// a failing start or finish hook may legitimately end the pipeline early
+			abortingStart = true
+		}
+	}
+	var ref *ext
+	for _, e := range exts {
+		if faulty[e.name] {
+			continue
+		}
+		if ref == nil {
+			ref = e
+			continue
+		}
+		if strings.Join(ref.log, "|") != strings.Join(e.log, "|") {
+			out.bad = fmt.Sprintf("extensions %s and %s did not panic but were notified differently: %v against %v", ref.name, e.name, ref.log, e.log)
+			return out
+		}
+	}
+	// a panic during result collection does not take result collection away from the others
+	if !abortingStart && req.name != "syntax error" && req.name != "validation error" {
+		for _, e := range exts {
+			own := ""
+			for _, pn := range out.panics {
+				if strings.HasPrefix(pn, e.name+".HasResult") || strings.HasPrefix(pn, e.name+".GetResult") {
+					own = pn
+				}
+			}
+			log := strings.Join(e.log, "|")
+			if own == "" && !strings.HasSuffix(log, "hasResult|getResult") {
+				out.bad = fmt.Sprintf("extension %s was not asked for its result although it never failed there (log %v, panics %v)", e.name, e.log, out.panics)
+				return out
+			}
+			if strings.HasSuffix(log, "getResult") {
+				if got, ok := r.Extensions[e.name]; !ok || got != e.name {
+					out.bad = fmt.Sprintf("the result of extension %s is missing from the response's extensions (%v)", e.name, r.Extensions)
+					return out
+				}
+			}
+		}
+	}
 	return out
 }
 
